@@ -9,16 +9,17 @@
     - the geometric kernels: what is proved for each of them (d);
     - rescaling a wall's normal / up vector by positive factors changes no BRDF direction (e).
     NOT carried by any theorem (NOT_CARRIED in harness/props/C17.py): the 0.5 %-of-peak bound under
-    axis permutations, float rounding, Stokes form factors under rotations (false for the pinned
-    code with its 1e-3 m cut-off: finding C05/similarity_cutoff, since repaired in /repo; not
-    proved for the cut-off-free sum either), the Nusselt branch,
-    [point_in_polygon] under rotations (the visibility statement is conditional on it). *)
+    axis permutations, float rounding, the Nusselt branch,
+    [point_in_polygon] under rotations (the visibility statement is conditional on it).
+    Stokes form factors under rigid maps ARE carried (d''): the cut-off-free sum, i.e. the code
+    with its cut-off 0 as repaired in /repo (it was false for the pinned 1e-3 m cut-off: finding
+    C05/similarity_cutoff). *)
 From Coq Require Import List Arith Bool Permutation.
 Import ListNotations.
 From SV Require Import Base.Ops Base.OpsGeom Base.Arr Base.Sums Model.Vec3 Model.Exchange Model.Scene
   Model.Frame Model.Tiling Model.PtSolution Model.Stokes Model.Visibility.
 From SV Require Import Spec.ExchangeSpec Spec.Isometry Proofs.SceneRefine Proofs.ReceiverProofs
-  Proofs.PtSimilarity Proofs.StokesSum Proofs.TilingProofs
+  Proofs.PtSimilarity Proofs.FieldFacts Proofs.StokesSum Proofs.StokesSimilarity Proofs.TilingProofs
   Proofs.PlacementTranslate Proofs.PlacementRelabel Proofs.PlacementKernels Proofs.PlacementVisibility.
 
 (** (a) C17_translate.  Shift every patch centre, the source and the receiver by [t] and keep the
@@ -199,7 +200,7 @@ Print Assumptions C17_distances_scene.
 
 (** (d) C17_kernels (PARTIAL: what the kernel developments prove).  Point-to-patch factor: both
     modes, translations and all linear isometries (C04).  Stokes form factor: translations, with
-    the code's cut-off in place (C05); rotations are NOT carried.
+    the code's cut-off in place (C05); rigid maps: see (d'') below.
     Tiling: translation equivariant (C08). *)
 Theorem C17_kernels_partial {T} {O : Ops T} {RL : RingLaws T} {OL : OrderLaws T} {DL : DivLaws T}
     (M : @mat T) (thr cut : T) (recv : bool) (t pt : @vec T) (pts pi pj : list (@vec T)) (a : T)
@@ -218,6 +219,22 @@ Proof.
               (create_patches_translate q t p)))).
 Qed.
 Print Assumptions C17_kernels_partial.
+
+(** (d'') C17_kernels, Stokes form factor under rigid placement maps [x |-> M x + t], [M^T M = I]
+    (rotations, mirrorings, the 48 signed axis permutations): the cut-off-free double Boole sum and
+    the code's value with its cut-off 0 ([np.abs(x[-1]-x[0]) > 0]) are unchanged -- the sum over the
+    three coordinates is a sum of inner products of segment step vectors, the entries only contain
+    distances.  Ordered field; [tln], [tsqrt] uninterpreted. *)
+Theorem C17_kernels_stokes_rotation {T} {O : Ops T} {RL : RingLaws T} {OL : OrderLaws T}
+    {FL : FieldLaws T} {AL : FieldFacts.AbsLaws T} (M : @mat T) (t : @vec T)
+    (pi pj : list (@vec T)) (a : T) :
+  orthogonal M ->
+  stokes_nocut (map (place M t) pi) (map (place M t) pj) a = stokes_nocut pi pj a /\
+  stokes_integration 0%T (map (place M t) pi) (map (place M t) pj) a = stokes_integration 0%T pi pj a.
+Proof.
+  intros HM. exact (conj (stokes_nocut_orthogonal M t pi pj a HM) (stokes_cut0_orthogonal M t pi pj a HM)).
+Qed.
+Print Assumptions C17_kernels_stokes_rotation.
 
 (** (d') visibility, CONDITIONAL: the line-of-sight test against a surface is invariant under a
     rigid placement map provided the [point_in_polygon] queries it makes (view point, evaluated
